@@ -38,6 +38,9 @@ type cliCase struct {
 	// Alphabet: --alphabet is given, with the alphabet that is detected for every alignment of the
 	// input ("auto" when they differ)
 	Alphabet bool `json:"alphabet,omitempty"`
+	// Preserve: a command documented to write "in the format of the input" (subseq over the whole
+	// length) is run on the same input with the same input options
+	Preserve bool `json:"preserve,omitempty"`
 	// Layout: presentation of a FASTA input (wrapping, blanks, CRLF, empty lines, no final newline)
 	Layout cli.Layout `json:"layout"`
 	// Reread: the output file is given to a second goalign reformat fasta -i <file>
@@ -70,6 +73,7 @@ func genCLI(t *rapid.T) cliCase {
 	}
 	c.Long = rapid.Bool().Draw(t, "long")
 	c.Alphabet = rapid.IntRange(0, 3).Draw(t, "alphabet") == 0
+	c.Preserve = rapid.IntRange(0, 2).Draw(t, "preserve") == 0
 	if c.In.Format == "fasta" {
 		c.Layout = cli.DrawLayout(t)
 		if c.Auto {
@@ -237,6 +241,8 @@ func checkCLI(c cliCase) (o pbt.Outcome, err error) {
 		defer os.Remove(inPath)
 		args = append(args, flag("-i", "--align"), inPath)
 	}
+	// the options that describe the input, for the further commands run on the same input
+	inArgs := append([]string{}, args[2:]...)
 	if c.Out.Strict {
 		args = append(args, "--output-strict")
 	}
@@ -343,6 +349,30 @@ func checkCLI(c cliCase) (o pbt.Outcome, err error) {
 		if !gen.SameRows(rows, want[0].Rows) {
 			return o, fmt.Errorf("goalign %s: independent reading of the FASTA output\n got : %s\n want: %s", show, gen.Show(rows), gen.Show(want[0].Rows))
 		}
+	}
+	if c.Preserve && len(c.Alis) == 1 {
+		// docs: "-p: input is in phylip format. Output format will also be phylip", the same for -x,
+		// -u, and --auto-detect overrides them; subseq: "The output format is the same than input
+		// format". The whole window (start 0, length L) is the alignment itself.
+		args3 := append([]string{"subseq"}, inArgs...)
+		args3 = append(args3, flag("-s", "--start"), "0", flag("-l", "--length"), fmt.Sprint(want[0].Length))
+		r3 := cli.Run(stdin, args3...)
+		show3 := strings.Join(args3, " ")
+		if r3.TimedOut {
+			o.Skip = true
+			return o, nil
+		}
+		if r3.Exit != 0 {
+			return o, fmt.Errorf("goalign %s: exit status %d on a valid %s input, stderr %q", show3, r3.Exit, c.In, r3.Stderr)
+		}
+		al3, e := parseText(r3.Stdout, cfg{Format: c.In.Format})
+		if e != nil {
+			return o, fmt.Errorf("goalign %s: the output is not in the format of the input (%s): %v\ninput: %s\noutput: %s", show3, c.In.Format, e, excerpt(text), excerpt(r3.Stdout))
+		}
+		if e = same(al3, want[0]); e != nil {
+			return o, fmt.Errorf("goalign %s: the whole window, written in the format of the input (%s), is not the input alignment: %v\noutput: %s", show3, c.In.Format, e, excerpt(r3.Stdout))
+		}
+		o.Class("format-preserving command (%s input%s)", c.In.Format, map[bool]string{true: ", --auto-detect", false: ""}[c.Auto])
 	}
 	if c.Reread && outPath != "" {
 		// the file goalign wrote under this name is read by goalign under this name
